@@ -96,16 +96,16 @@ func VH_C11_roundtrip() {
 	}
 	out, err := ea.DecryptBytes(cert)
 	vReach("decrypted", err == nil)
-	vAssert("C11.compliant-encryption-decrypts", err == nil)
+	vAssert("C11,C08.compliant-encryption-decrypts", err == nil)
 	if err != nil {
 		return
 	}
 	vAssert("C11.private-key-operation-performed-once", vRSADecryptCalls() == 1)
-	vAssert("C11.plaintext-length-exact", len(out) == plen)
+	vAssert("C11,C08.plaintext-length-exact", len(out) == plen)
 	if isCBC {
 		j := vInt("probe.index", 0, 46)
 		if j < len(out) {
-			vAssert("C11.plaintext-bytes-exact", vImplies(j < plen, vByteAt(out, j) == vPlainByte("cv", j)))
+			vAssert("C11,C08.plaintext-bytes-exact", vImplies(j < plen, vByteAt(out, j) == vPlainByte("cv", j)))
 		}
 	} else {
 		vAssert("C11.gcm-plaintext-is-what-open-returned", vIsGCMOpened(out))
